@@ -127,7 +127,7 @@ def P(pid, modules, runs, rule, level_text, assumptions, regen=None, trusted=Non
 P("C01", ["LC.Props.C01", "LC.Props.C01Range"], [MATCH, v2run("TestVerifC01")],
   "every picked corpus document planted (verbatim) between out-of-vocabulary lines, 1-4 copies per input, thresholds "
   "0.8 (quick; +0.9 on even seeds) / 0.7,0.75,0.8,0.9,0.95,1.0 (thorough, all 431 documents), plus user-added synthetic "
-  "documents; expected name/span/lines from the white-box tokenisation of the prefix, never from Match. distinct = "
+  "documents and minimum-length documents (exactly q, q+1, 2q words at thresholds 0.7/0.8/0.85/0.9/1.0); expected name/span/lines from the white-box tokenisation of the prefix, never from Match. distinct = "
   "(threshold, documents); non-trivial = at least one planted copy of >= q tokens was checked",
   "exact_range_proposed: for EVERY document D (>= q tokens) planted between contexts sharing no token with it, the q-gram join, "
   "density window, range fusion and claimed-token cut of the model propose exactly source [0,|D|) -> target [|pre|,|pre|+|D|) "
@@ -175,7 +175,7 @@ P("C04", ["LC.Props.C04"], [MATCH, v2run("TestVerifC04", xproc=True)],
 
 P("C05", ["LC.Props.C05"], [TOK, v2run("TestVerifC05")],
   "metamorphic: real Match before/after each presentation transform (upper/random ASCII case, indentation, trailing blanks, "
-  "CRLF, tabs, double spaces, blank lines, comment prefixes, Unicode hyphens/quotes) on corpus documents alone / planted / "
+  "CRLF, tabs, double spaces, no-break/em/thin/ideographic spaces, blank lines, comment prefixes, Unicode hyphens/quotes) on corpus documents alone / planted / "
   "edited and scenario files; inputs with a hyphen before a line break are exempt as the property says. distinct = "
   "(transform, input); non-trivial = the untransformed input has matches",
   "step_congr/tokenize_congr (equal scan signatures are interchangeable), skip_inert/insert_inert, crlf_equiv, "
@@ -186,19 +186,21 @@ P("C05", ["LC.Props.C05"], [TOK, v2run("TestVerifC05")],
 
 P("C06", ["LC.Props.C06"], [TOK, v2run("TestVerifC06")],
   "metamorphic: copyright/date lines inserted between lines, list markers (1., iv., a., 3.1., b:) and letter-paren markers "
-  "(a)) prefixed, words split by hyphen+newline, listed spelling variants swapped, http/https switched; plus: an inserted "
-  "notice must be reported on its line. distinct = (transform, input); non-trivial = input has matches",
+  "(a)) prefixed, words split by hyphen+newline (one per line; every long word; with indented continuation), listed spelling "
+  "variants swapped, http/https switched; plus: an inserted notice must be reported on its line, also when appended to the "
+  "text with every long word hyphen-split. distinct = (transform, input); non-trivial = input has matches",
   "PARTIAL: notice_line, marker_dropped/header_iff, hyphen_join_word, interchangeable_same_token, https_http/replaceHttps_idem "
   "are proved (tokenizer level, every environment; table facts on the regenerated tables). The property is false of the code "
   "in three recorded ways (known_findings.json): a) markers, line restart after a hyphen join, notices inside a license span.",
   ["known findings C06/* are reported as KNOWN-FINDING, any other failure is a violation"], regen=ALLGEN)
 
 P("C07", ["LC.Props.C07"], [TOK, MATCH, v2run("TestVerifC07")],
-  "Match(X) vs Match(prefix+X+suffix) with out-of-vocabulary prefix of 1 and 7 lines, X = exact / edited 10% / edited+"
-  "truncated / two-license texts; license matches compared in order with shifted lines and token indices, Copyright "
+  "Match(X) vs Match(prefix+X+suffix) with out-of-vocabulary blocks of 1 and 7 lines and pads of a few words only, X = exact / "
+  "edited 10% / edited+truncated / tail-less / two-license texts; license matches compared in order with shifted lines and token indices, Copyright "
   "pseudo-matches as a set of lines. distinct = (X, prefix length); non-trivial = X alone has matches",
   "PARTIAL: tokens_shift, hashes_shift, match_line_monotone are proved; detectRuns/fuseRanges are NOT shift-equivariant in the "
-  "code (finding C07/negative-offset-clamp), so the full statement is false and not claimed.",
+  "code (finding C07/negative-offset-clamp), so the full statement is false and not claimed. A case is accepted as that finding "
+  "only if the model of the unchanged code reproduces both of its Match results (match records emitted for the case).",
   ["HashInj is not needed for the proved parts", FLOAT], regen=ALLGEN)
 
 P("C08", ["LC.Props.C08"], [TOK, v2run("TestVerifC08")],
@@ -222,7 +224,8 @@ P("C09", ["LC.Props.C09"], [MATCH, v2run("TestVerifC09", race=True, timeout=1800
 
 P("C10", ["LC.Props.C03WF", "LC.Props.C08"], [TOK, MATCH, v2run("TestVerifC10")],
   "Match, MatchFrom, Normalize, AddContent on the malformed stream and on structure-aware mutations of license texts, for "
-  "thresholds {0,1e-9,0.5,0.8,1-1e-9,1}, classifiers with empty corpus / empty and wordless documents / full corpus, with a "
+  "thresholds {0,1e-9,0.5,0.8,1-1e-9,1}, classifiers with empty corpus / empty and wordless documents / full corpus, notice-only "
+  "inputs (Copyright matches, no tokens), with a "
   "120 s hang detector. distinct = (classifier, input); non-trivial = non-empty input",
   "match_no_panic: the model of the pipeline never reaches one of its explicit panic results (filter[off], Tokens[i]) for ANY "
   "tokens, corpus, NumEnv and diff scripts; the tokenizer model and the read loop are total functions (structural/fuel, "
@@ -230,7 +233,8 @@ P("C10", ["LC.Props.C03WF", "LC.Props.C08"], [TOK, MATCH, v2run("TestVerifC10")]
   ["regexp, html, go-diff and utf8 are assumed total", "empty-token-list guard as repaired"], regen=ALLGEN)
 
 P("C11", ["LC.Props.C11", "LC.Props.C06"], [TOK, v2run("TestVerifC11")],
-  "Normalize vs Match on corpus documents (thorough: all), plantings, edited texts, scenario files: (a) line k of the output "
+  "Normalize vs Match on corpus documents (thorough: all), plantings, edited texts, scenario files, dotted numbers, upper-case list "
+  "markers, hyphen-split texts (natural, dense, indented, first line without tokens): (a) line k of the output "
   "holds the words Match attributes to line k (modulo first-letter case and interchangeable spelling); (b) "
   "Match(Normalize(in)) = Match(in) on non-Copyright matches. distinct = input; non-trivial = input has matches / > 3 tokens",
   "PARTIAL: render_lines (line k of the output = words of line k) under StepOne and tokenize_stepOne (tokenizer output is "
@@ -239,8 +243,9 @@ P("C11", ["LC.Props.C11", "LC.Props.C06"], [TOK, v2run("TestVerifC11")],
   ["known findings C11/* are reported as KNOWN-FINDING"], regen=ALLGEN)
 
 P("C12", ["LC.Props.C12"], [PATH, v2run("TestVerifC12")],
-  "real LoadLicenses on generated directory trees (files at depth 1-5, suffixes txt/md/TXT/none, empty files) under five "
-  "spellings of the directory (plain, trailing separator, ./relative, doubled separator, ..); corpus keys and Match results "
+  "real LoadLicenses on generated directory trees (files at depth 1-5, suffixes txt/md/TXT/none, empty files, 1-2 letter "
+  "categories, corpus directory named corpus or corpus.txt) under eight spellings of the directory (plain, trailing separator, "
+  "./relative, doubled separator, .., and after chdir: '.', './', '../name'); corpus keys and Match results "
   "compared with an AddContent-built classifier for trees whose .txt files sit at depth 3; LoadLicenses(assets) vs the "
   "AddContent-built default corpus; stages clean/rel/loadkey compare filepath.Clean/Rel and the key derivation with the model. "
   "distinct = (tree, spelling); non-trivial = all",
@@ -259,7 +264,7 @@ P("C13", ["LC.Props.C13", "LC.Props.C17"],
   [rootrun("stringclassifier", "stringclassifier", "overlay/stringclassifier/zz_verif_test.go", "TestVerifC13"),
    rootrun("stringclassifier/searchset", "searchset", "overlay/searchset/zz_verif_test.go", "TestVerifC17")],
   "value sets (1-60 tokens; small/large vocabulary; regex metacharacters, Unicode, invalid UTF-8), none inside another, with "
-  "and without a lower-casing normaliser, thresholds 0.5/0.8/0.9; AddValue must not panic; NearestMatch of each value; a "
+  "and without a lower-casing normaliser, thresholds 0.3/0.5/0.8/0.9/1.0; AddValue must not panic; NearestMatch of each value; a "
   "verbatim copy planted in filler (start, middle, very end) must be reported with confidence 1.0 and exact Offset/Extent; all "
   "confidences in (0,1], all ranges inside the normalised unknown. distinct = (value set, unknown); non-trivial = all",
   "findAll_sound/findAll_first (the literal search returns exactly the occurrences), exact_token_range (the repaired loop "
@@ -280,7 +285,8 @@ P("C14", ["LC.Props.C14"],
 
 P("C15", ["LC.Props.C15"],
   [rootrun("serializer", "serializer", "overlay/serializer/zz_verif_test.go", "TestVerifC15")],
-  "subsets/orderings of the 178 license files (plus non-.txt entries, duplicates, synthetic files through ReadLicenseFile) "
+  "subsets/orderings of the 178 license files (always including names whose last letters are among those of '.txt'; plus "
+  "non-.txt entries) "
   "archived with ArchiveLicenses and loaded with New(ArchiveBytes); every archived license must match its own text exactly; "
   "NearestMatch/MultipleMatch compared with a classifier built by AddValue from the same texts (calls that approach go-diff's "
   "1 s deadline are skipped and counted). distinct = file subset; non-trivial = all",
@@ -311,7 +317,8 @@ P("C17", ["LC.Props.C17"],
 P("C18", ["LC.Props.C18"],
   [rootrun("commentparser", "commentparser", "overlay/commentparser/zz_verif_test.go", "TestVerifC18")],
   "all strings up to length 4 (quick) / 5-6 (thorough) over a delimiter-rich alphabet for 21 comment styles, random long "
-  "programs for all language values 0..49, ChunkIterator on random line patterns; every input goes both to the impl-level "
+  "programs and directed quote/escape/comment combinations for all language values 0..49, all sequences of up to 6/8 block "
+  "delimiters, letters and newlines for the nesting languages, ChunkIterator on random line patterns; every input goes both to the impl-level "
   "model (tie) and to the SPECIFICATION lexer over the hand-maintained expected syntax (oracle). distinct = (language, input); "
   "non-trivial = at least one comment",
   "lex_refines_spec: the model of the Go lexer equals the straightforward specification lexer on EVERY source text for every "
